@@ -134,6 +134,8 @@ class Interp:
     # ------------------------------------------------------------------ helpers
     def truth(self, v):
         """python truthiness as native bool or z3 Bool"""
+        if isinstance(v, SV) and v.kind == ('abs', 'Pt'):
+            return True      # a Point is a 2-tuple: always truthy
         if isinstance(v, SV):
             if v.kind == 'bool':
                 return v.e
@@ -283,6 +285,9 @@ class Interp:
         if isinstance(n.op, ast.Not):
             t = self.truth(v)
             return (not t) if isinstance(t, bool) else SV(simp(z3.Not(t)), 'bool')
+        from . import group as G_
+        if isinstance(n.op, ast.USub) and G_.pt_of(self, v) is not None:
+            return G_.pneg(self, G_.pt_of(self, v))
         if isinstance(v, Loc):
             return self.call_method(v, {ast.USub: '__neg__', ast.Invert: '__invert__', ast.UAdd: '__pos__'}[type(n.op)], [], {})
         if not isinstance(v, SV):
@@ -563,6 +568,8 @@ class Interp:
             if not has_sym(args) and not has_sym(tuple(kw.values())):
                 return M.native_call(self, f, args, kw)
             recv = getattr(f, '__self__', None)
+            if isinstance(recv, str) and f.__name__ == 'format':
+                return M.SymText()      # message text with symbolic parts: opaque
             if isinstance(recv, (bytes, str)) and not isinstance(recv, type):
                 return M.cell_method(self, lift(recv), f.__name__, args, kw)
             if type(recv) is dict and f.__name__ == 'get':
